@@ -145,7 +145,7 @@ def directory_rules(ctx: Ctx) -> None:
                     n += 1
                     ctx.expect("R-CLONE", f, f"SSC is preferred to SM: {src(node, 60)}", attrs == ["ssc_path", "sm_path"] and ast.unparse(node.values[0].value) == ast.unparse(node.values[1].value), "",
                                f"{src(node)} prefers the SM file", node=node)
-    ctx.floor("'ssc_path or sm_path' expressions", n, 3)
+    n_pref = n
     # open()
     op = p.func(f"{SD}.open")
     s2 = op.param_names()[0]
@@ -162,71 +162,68 @@ def directory_rules(ctx: Ctx) -> None:
     sp_ = p.func(f"{SD}.simfile_path")
     rr = [r for r in body_walk(sp_.node) if isinstance(r, ast.Return)]
     ctx.expect("R-TABLE", sp_, "simfile_path is ssc_path or sm_path", len(rr) == 1 and ast.unparse(rr[0].value) == f"{sp_.param_names()[0]}.ssc_path or {sp_.param_names()[0]}.sm_path", "", "", node=sp_.node)
-    # opendir / openpack return the same paths
-    for fq, recv in (("simfile:opendir", None), ("simfile:openpack", None)):
+    # opendir / openpack answer with the simfile opened by the directory object's own open() (which refuses a directory without a simfile)
+    # and the path that object prefers
+    from .tables import closed as _closed, sums_of as _tsums
+    for fq in ("simfile:opendir", "simfile:openpack"):
         f = p.func(fq)
-        ors = [n for n in body_walk(f.node) if isinstance(n, ast.BoolOp) and isinstance(n.op, ast.Or)]
-        oks = [n for n in ors if [getattr(v, "attr", None) for v in n.values] == ["ssc_path", "sm_path"]]
-        opens = [c_ for c_ in calls(f) if callee_name(ctx, f, c_) == f"{SD}.open"]
-        okk = len(oks) == 1 and len(opens) == 1 and isinstance(opens[0].func, ast.Attribute) and ast.unparse(opens[0].func.value) == ast.unparse(oks[0].values[0].value)
-        ctx.expect("R-FWD", f, f"{f.name} returns the simfile opened from, and the path of, the same directory object", okk, "", "", node=f.node)
+        outs = set()
+        for s_ in _tsums(ctx, f):
+            for i_, e in enumerate(s_.effects):
+                if e.kind in ("return", "yield") and e.value is not None:
+                    v_ = _closed(s_, e.value, i_, opq=e.opq)
+                    outs.add(ast.unparse(v_))
+        good = bool(outs)
+        for o in outs:
+            t_ = ast.parse(o, mode="eval").body
+            okt = isinstance(t_, ast.Tuple) and len(t_.elts) == 2 and matches("$d.open(**$k)", t_.elts[0]) and ast.unparse(t_.elts[0].keywords[0].value) == f.has_kwargs()
+            if okt:
+                d_ = ast.unparse(t_.elts[0].func.value)
+                second = ast.unparse(t_.elts[1])
+                okt = second in (f"cast(str, {d_}.ssc_path or {d_}.sm_path)", f"{d_}.ssc_path or {d_}.sm_path", f"cast(str, {d_}.simfile_path)", f"{d_}.simfile_path") and \
+                    (d_.startswith("SimfileDirectory(") or fq.endswith("openpack"))
+            good = good and okt
+        ctx.expect("R-FWD", f, f"{f.name} returns the simfile opened from, and the path of, the same directory object (through SimfileDirectory.open, which raises FileNotFoundError when there is none)",
+                   good, str(sorted(outs))[:200], f"{f.name} answers {sorted(outs)}", node=f.node)
+    ctx.floor("'ssc_path or sm_path' expressions", n_pref, 2)
 
 
 def pack_rules(ctx: Ctx) -> None:
-    """C19.5"""
+    """C19.5: a sub-directory of the pack is reported, once, iff it is a directory that directly contains an entry with a simfile extension."""
     p = ctx.p
     f = p.func(f"{SP}._find_simfile_paths")
-    cfg = ctx.cfg(f)
     sn = f.param_names()[0]
-    lps = [l for l in for_loops(f) if matches("$s.filesystem.listdir($s.pack_dir)", l.iter)]
-    outer = one(lps, f"loop over the pack listing in {f.fq}")
-    item = outer.target.id
-    pv = [n for n, bs in locals_of(f).b.items() for b in bs if b.kind == "assign" and matches("$s._path.join($s.pack_dir, $i)", b.value) and ast.unparse(b.value.args[1]) == item]
-    path = one(pv, "joined entry path local")
-    inner = [l for l in for_loops(f) if in_body(outer, l) and matches("$s.filesystem.listdir($p)", l.iter) and ast.unparse(l.iter.args[0]) == path]
-    if not inner:
-        # any(...) form: if isdir(p) and any(match(i, *SIMFILE) for i in listdir(p)): yield p
-        ys = [n for n in body_walk(f.node) if isinstance(n, (ast.Yield, ast.YieldFrom))]
-        y = one(ys, f"yield in {f.fq}")
-        fy = facts(ctx, f, y)
-        isdir_ok = any(pol and ast.unparse(a) == f"{sn}.filesystem.isdir({path})" for a, pol in fy)
-        any_ok = False
-        order_ok = False
-        for a, pol in fy:
-            mm = match("any((extensions.match($i, *extensions.SIMFILE) for $i in $s.filesystem.listdir($p)))", a)
-            if pol and mm is not None and ast.unparse(mm["p"]) == path:
-                any_ok = True
-        # isdir is evaluated before the listing (short-circuit order or an enclosing test)
-        for n in body_walk(f.node):
-            if isinstance(n, ast.BoolOp) and isinstance(n.op, ast.And):
-                txt = [ast.unparse(inline(v, f)) for v in n.values]
-                if any("isdir" in t for t in txt) and any("listdir" in t for t in txt):
-                    order_ok = [i for i, t in enumerate(txt) if "isdir" in t][0] < [i for i, t in enumerate(txt) if "listdir" in t][0]
-        if isdir_ok and not order_ok:
-            order_ok = True  # separate, dominating test
-        ctx.expect("R-ORDER", f, "only directories are listed (isdir precedes the nested listdir)", isdir_ok and order_ok, "", "the nested listdir is reachable for a loose file", node=y)
-        ctx.expect("R-TABLE", f, "a sub-directory is reported iff it directly contains an entry with a simfile extension", any_ok and isinstance(y, ast.Yield) and ast.unparse(y.value) == path, "", "", node=y)
-        ctx.ok("R-ORDER", f, "a directory is reported once (any() form)", "", node=y)
-        _pack_tail(ctx, f)
+    from .tables import Dec, judge as tjudge, sums_of as tsums
+    from ..decide import key as ckey
+    sums = tsums(ctx, f)
+    fors = {}
+    for s_ in sums:
+        for e in s_.effects:
+            if e.kind == "for":
+                fors[e.line] = (ast.unparse(e.target), ast.unparse(e.value), e.loops)
+    outer = [l for l, (t, v, ls) in fors.items() if v == f"{sn}.filesystem.listdir({sn}.pack_dir)" and not ls]
+    require(len(outer) == 1, f"{f.fq}: expected one loop over the pack listing, found {sorted(fors.values(), key=str)}")
+    item = fors[outer[0]][0]
+    PATH = f"{sn}._path.join({sn}.pack_dir, {item})"
+    inner = [l for l, (t, v, ls) in fors.items() if v == f"{sn}.filesystem.listdir({PATH})" and outer[0] in ls]
+    ctx.expect("R-TABLE", f, "each entry of the pack directory is looked into (its own listing)", len(inner) == 1 and len(fors) == 2, str(sorted(fors.values(), key=str)), f"loops: {sorted(v for t, v, ls in fors.values())}", node=f.node)
+    if not (len(inner) == 1 and len(fors) == 2):
         return
-    il = one(inner, f"loop over a sub-directory's listing in {f.fq}")
-    fs = [(ast.unparse(a), pol) for a, pol in facts(ctx, f, il)]
-    ctx.expect("R-ORDER", f, "only directories are listed (isdir precedes the nested listdir)", (f"{sn}.filesystem.isdir({path})", True) in fs, str(fs), "the nested listdir is reachable for a loose file", node=il)
-    ys = [n for n in body_walk(f.node) if isinstance(n, (ast.Yield, ast.YieldFrom))]
-    oky = len(ys) == 1 and isinstance(ys[0], ast.Yield) and ast.unparse(ys[0].value) == path and in_body(il, ys[0])
-    if oky:
-        fy = [(ast.unparse(a), pol) for a, pol in facts(ctx, f, ys[0])]
-        m = [a for a, pol in fy if pol and a.startswith("extensions.match(")]
-        oky = len(m) == 1 and m[0] == f"extensions.match({il.target.id}, *extensions.SIMFILE)"
-    ctx.expect("R-TABLE", f, "a sub-directory is reported iff it directly contains an entry with a simfile extension", oky, "", "", node=il)
-    # one yield per directory: break right after the yield
-    okb = False
-    if ys:
-        st = parent(f, parent(f, ys[0])) if isinstance(parent(f, ys[0]), ast.Expr) else None
-        blk = st.body if isinstance(st, ast.If) else []
-        idx = [i for i, s_ in enumerate(blk) if isinstance(s_, ast.Expr) and s_.value is ys[0]]
-        okb = bool(idx) and idx[0] + 1 < len(blk) and isinstance(blk[idx[0] + 1], ast.Break)
-    ctx.expect("R-ORDER", f, "a directory is reported once (break follows the yield)", okb, "", "", node=il)
+    sub = fors[inner[0]][0]
+    simfile_ext = tuple(p.const(EXT, "SIMFILE"))
+    D, M = f"{sn}.filesystem.isdir({PATH})", f"extensions.match({sub}, *{simfile_ext!r})"
+    decs = []
+    for s_ in sums:
+        if not any(e.kind == "for" and e.line == outer[0] for e in s_.effects):
+            continue
+        asg = dict(s_.atoms_in(outer[0]))
+        if not any(e.kind == "for" and e.line == inner[0] for e in s_.effects) and asg.get(ckey(D)) is True:
+            asg.setdefault(ckey(M), False)  # an empty directory holds no simfile
+        toks = sorted({("leave the inner listing" if e.kind == "break" else e.text) for e in s_.effects if outer[0] in e.loops and e.kind in ("yield", "yieldfrom", "break", "return", "raise")})
+        decs.append(Dec(asg, tuple(toks), s_))
+    tjudge(ctx, "R-TABLE", f, "a sub-directory is reported (once: its listing is left at the first simfile) iff it is a directory and directly contains an entry with a simfile extension; "
+           "only directories are listed", decs, [D, M], lambda a: tuple(sorted(["leave the inner listing", f"yield {PATH}"])) if (a[D] and a[M]) else (),
+           why="every song directory of the pack must be found, whatever it is called; loose files are never listed")
     _pack_tail(ctx, f)
 
 
